@@ -7,6 +7,7 @@ nbr <K> <bits>^K                                   → <index> ~d | panic
 next <street> <K> <N> (<H point> <bits>^K)^N       → ok <k> (<mass> <n> (<code> <count>)*)^k | panic   (k = street.k() from RP.Gen)
 lookup <street> <K> <N> (<bits>^K)^N               → ok <code>^N | panic
 metric <street> <K> <bits>^(K·K)                   → <n> (<key> ~v)*
+proj <n> (<H>)^n                                   → <n> (<mass> <n> (<code> <count>)*)^n   (Lookup::projections: futures of the classes, in class order)
 dens <H> <code>                                    → ~v        (Histogram::density)
 vdist <H point> <H centroid>                       → ~v        (Equity::variation of RP.Transport, Float32)
 H = <n> <mass> (<code> <count>)*
@@ -92,6 +93,22 @@ def handle (line : String) : String :=
         | none => "panic"
       | _ => "bad-op"
     | _, _, _ => "bad-op"
+  | "proj" :: n :: rest =>
+    match nat? n with
+    | some n =>
+      let rec go : Nat → List String → List Hist → Option (List Hist)
+        | 0, [], acc => some acc.reverse
+        | 0, _, _ => none
+        | k + 1, ts, acc => match parseHist ts with
+          | some (h, ts') => go k ts' (h :: acc)
+          | none => none
+      match go n rest [] with
+      | some futures =>
+        -- the i-th class's future is the i-th histogram given; the points are the futures in class order
+        let pts := projections (fun i : Nat => futures.getD i Hist.empty) (List.range n)
+        s!"{pts.length}" ++ String.join (pts.map showHist)
+      | none => "bad-op"
+    | none => "bad-op"
   | "dens" :: rest =>
     match parseHist rest with
     | some (h, [a]) =>
